@@ -54,6 +54,14 @@ CHECKS = {
    text="Local proof of the mechanism: the data goroutine forwards every element once, in order, after taking one token per element (until the pacer stops) and closes out; the pacer sends exactly ops tokens per completed interval wait (|sent(ctl)| = sleeps*ops + i), the token channel has capacity ops, it exits and closes only on cancel.",
    note=PIPE_NOTE + " NOT decided by this family: the window bound 2*ops+1+c and the latency clause (timed counts relating two goroutines); they follow from the mechanism contracts by a pen-and-paper argument recorded in DESIGN.md, which is not evidence. The directed probe measures the burst bound on the real code when an obligation fails.", cat="other",
    tech="contract-based deductive verification of the pacing mechanism (tokens per interval, token per element)", ref="6/C13, 7"),
+ "C09": dict(
+   text="Local proof + channel axioms for fork.Map, FMap, Filter, Partition, ForEach, Void (and Fold): per worker the sequential stage's trace invariant over what that worker received (each received element applied once); the permission protocol: Add(par), exactly par workers spawned (loop invariant), each holding one send share of every output and one buffer slot of the capacity-par error channel, one Done on every exit path, the closer spawned after all workers with Add total = spawned, close only after Wait and exactly once; no worker writes a captured variable (race by ownership). Delegating stages are checked against the pipe contracts.",
+   note=PIPE_NOTE + " The step from per-worker traces to the multiset the consumer sees (workers' inputs partition what was sent on the shared input) is the channel axiom. sync.WaitGroup semantics assumed. Overflow of the spawn counter is not checked.",
+   tech="contract-based deductive verification: WaitGroup/share/slot permission protocol, per-worker trace invariants, race check by ownership", ref="6/C09, 4.2"),
+ "C10": dict(
+   text="Local proof + channel axioms + algebra lemmas: each fork.Fold worker folds what it received starting from Empty() and hands over exactly one partial result (slot token on the capacity-par channel); the collector, after Wait, receives exactly par partial results and combines them starting from Empty() (loop invariant), sends one value and closes both channels. That the combination of partial folds of any distribution of the elements equals the sequential left fold for a commutative monoid is proved as SMT lemmas by structural induction (fold of concatenation, invariance under chunk order and adjacent swaps).",
+   note=PIPE_NOTE + " A genuine defect was found and repaired (collector started from the zero value instead of Empty()), see KNOWN_FINDINGS.json.",
+   tech="contract-based deductive verification: per-goroutine fold invariants, slot tokens, inductive algebra lemmas (cvc5 --quant-ind)", ref="6/C10"),
 }
 
 NA_REASON = "check not built yet in this session (engine under construction; build order in DESIGN.md section 12)"
